@@ -418,7 +418,8 @@ Fixpoint cedar_form (t : tyx) : tyx :=
   | XSet e => XSet (cedar_form e)
   | XRecord attrs o =>
       XRecord ((fix go (l : list (str * (tyx * bool))) : list (str * (tyx * bool)) :=
-                  match l with [] => [] | (k, (a, r)) :: l' => (k, (cedar_form a, r)) :: go l' end) attrs) o
+                  match l with [] => [] | (k, (a, r)) :: l' => (k, (cedar_form a, r)) :: go l' end) attrs) false
+      (* the Cedar syntax has no additionalAttributes: fmt.rs does not print it, the parser always produces false *)
   | XEntity n => XEoc n
   | XCommon n => XEoc n
   | XEoc n => XEoc n
